@@ -127,6 +127,15 @@ CLAIMED["C09"] = {
     "technique": "frame conditions on the traces of the real templates: same-execution expression-DAG identity and sentinel cells",
 }
 
+CLAIMED["C10"] = {
+    "text": "For every group, Map and Map<const> views at cell offsets 0 and 1 over sentinel-guarded buffers: every operation returns the same expression as on "
+            "owning objects (also mixed operand kinds); no result or branch depends on a sentinel; every mutator writes exactly the viewed cells with the owning "
+            "computation's result and leaves sentinels and the other operand's buffer untouched; copies/moves/cross-kind assignments preserve coefficients - "
+            "decided as same-execution DAG identities, i.e. for all inputs.",
+    "note": "Trusted: tracer hash-consing, sentinel cells. Granularity one scalar cell: discarded reads, byte-level overruns, alignment are NOT decided.",
+    "technique": "frame conditions on traces of the real Map specialisations: sentinel cells + same-execution expression-DAG identity",
+}
+
 NOT_APPLICABLE = {
     "C14": "quantifies over thread schedules; contract verification of one sequential call cannot express or decide data-race freedom (no thread model in any installed deductive back end for this C++ code) - see DESIGN.md section 5",
     "C19": "the oracle is the compiler's accept/reject verdict over a matrix of client programs, not a pre/postcondition of any function - see DESIGN.md section 5",
